@@ -21,6 +21,8 @@ pub struct Fam {
     pub out_type: Type,
     /// compiled result must equal the plaintext result exactly (false for Truncate)
     pub exact: bool,
+    /// if not exact: admissible element-wise distance (mod 2^bits) between compiled and plaintext result
+    pub tol: u64,
     pub inputs: Vec<Value>,
     /// distribution keys of operations used
     pub ops: Vec<String>,
@@ -51,7 +53,7 @@ fn finish(name: &str, descr: String, ctx: Context, rng: &mut Rng, ops: Vec<Strin
     }
     let out_type = g.get_output_node()?.get_type()?;
     let inputs = crate::mpc_common::gen_inputs_for(rng, &in_types);
-    Ok(Fam { name: name.to_owned(), descr, ctx, in_types, out_type, exact, inputs, ops })
+    Ok(Fam { name: name.to_owned(), descr, ctx, in_types, out_type, exact, tol: 0, inputs, ops })
 }
 
 /// random walk over array-typed nodes of one integer scalar type (plus bit nodes)
@@ -392,12 +394,13 @@ pub fn assoc_iterate_family(rng: &mut Rng) -> Result<Fam> {
 /// so that a swapped operand order still type-checks
 pub fn bilinear_family(rng: &mut Rng) -> Result<Fam> {
     let st = *rng.pick(&[INT32, UINT64, INT64, UINT8, INT128]);
-    let k = 1 + rng.below(3);
-    let sq = rng.chance(2, 3);
+    // every third instance: the commutator of two square matrices (both products of the same two nodes)
+    let both = rng.chance(1, 3);
+    let k = if both { 2 + rng.below(2) } else { 1 + rng.below(3) };
+    let sq = both || rng.chance(2, 3);
     let n = if sq { k } else { 1 + rng.below(3) };
     let m = if sq { k } else { 1 + rng.below(3) };
-    let which = rng.below(7);
-    let both = sq && k >= 2 && rng.chance(1, 2);
+    let which = if both { *rng.pick(&[0u64, 4]) } else { rng.below(7) };
     let (sa, sb, name): (Vec<u64>, Vec<u64>, String) = match which {
         0 => (vec![n, k], vec![k, m], "Dot".into()),
         1 => (vec![k], vec![k], "Dot".into()),
@@ -424,6 +427,77 @@ pub fn bilinear_family(rng: &mut Rng) -> Result<Fam> {
     finish("bilinear", format!("{} {} {:?} x {:?}", name, st_name(st), sa, sb), ctx, rng, vec![name], true)
 }
 
+/// Truncate on private data: division by 2^k (TruncateMPC2K) or by a general divisor (TruncateMPC) of
+/// in-range inputs; the compiled result may differ from the plaintext one by one unit (C05)
+pub fn truncate_family(rng: &mut Rng) -> Result<Fam> {
+    let general = rng.chance(1, 4);
+    let st = if general { INT64 } else { *rng.pick(&[INT32, INT64, UINT64, UINT32, INT16, UINT8]) };
+    let bits = scalar_size_in_bits(st);
+    let shape = if rng.chance(1, 3) { vec![] } else { gen_shape(rng, 2, 3, 6) };
+    let scale: u64 = if general { *rng.pick(&[3u64, 5, 10, 100, 1000]) } else { 1u64 << (1 + rng.below(bits - 2)) };
+    let which = rng.below(3);
+    let ctx = simple_context(|g| {
+        let a = g.input(arr(&shape, st))?;
+        match which {
+            0 => a.truncate(scale as u128),
+            1 => {
+                let b = g.input(arr(&shape, st))?;
+                a.add(b)?.truncate(scale as u128)
+            }
+            _ => {
+                let b = g.input(arr(&shape, st))?;
+                a.truncate(scale as u128)?.add(b)
+            }
+        }
+    })?;
+    let mut fam = finish("truncate", format!("{} variant {} {} {:?} scale {}", if general { "general" } else { "2^k" }, which, st_name(st), shape, scale), ctx, rng, vec![if general { "Truncate".into() } else { "Truncate2K".into() }], false)?;
+    fam.tol = 1;
+    // inputs in the documented range: |a|, |b| < 2^(bits-3) (2^k protocol) or < 2^20 (general divisor:
+    // the wrap-around event has probability < 2^-40 per element)
+    let mag_bits = if general { 20 } else { bits - 3 };
+    let n: u64 = shape.iter().product::<u64>().max(1);
+    fam.inputs = fam
+        .in_types
+        .iter()
+        .map(|_| {
+            let xs: Vec<Z> = (0..n)
+                .map(|_| {
+                    let m = match rng.below(4) { 0 => rng.below(4) as i128, 1 => (1i128 << mag_bits) - 1 - rng.below(3) as i128, _ => (rng.next() as u128 % (1u128 << mag_bits)) as i128 };
+                    let neg = st.is_signed() && rng.chance(1, 2);
+                    Z::I(if neg { -m } else { m }).wrap_to(st)
+                })
+                .collect();
+            value_of(st, &xs).expect("value_of")
+        })
+        .collect();
+    Ok(fam)
+}
+
+/// equality, or (families with `exact == false`) element-wise distance ≤ tol modulo 2^bits
+pub fn fam_close(fam: &Fam, got: &Value, expected: &Value) -> bool {
+    if fam.exact {
+        return got == expected;
+    }
+    if fam.tol == 0 {
+        return true;
+    }
+    let t = fam.out_type.clone();
+    let (st, at) = match &t {
+        Type::Scalar(st) => (*st, array_type(vec![1], *st)),
+        Type::Array(_, st) => (*st, t.clone()),
+        _ => return true,
+    };
+    let bits = scalar_size_in_bits(st);
+    let mask: u128 = if bits >= 128 { u128::MAX } else { (1u128 << bits) - 1 };
+    match (got.to_flattened_array_u128(at.clone()), expected.to_flattened_array_u128(at)) {
+        (Ok(a), Ok(b)) => a.len() == b.len() && a.iter().zip(b.iter()).all(|(x, y)| {
+            let d = x.wrapping_sub(*y) & mask;
+            d <= fam.tol as u128 || d >= (mask - fam.tol as u128 + 1)
+        }),
+        _ => false,
+    }
+}
+
 pub fn arith_family(rng: &mut Rng, max_ops: usize) -> Result<Fam> {
     let p = crate::mpc_common::gen_aprog(rng, max_ops, false);
     let ctx = p.build()?;
@@ -436,7 +510,7 @@ pub fn gen_family(rng: &mut Rng, heavy: bool) -> Result<Fam> {
     match x {
         0..=4 => arith_family(rng, 6),
         5..=10 => tensor_family(rng, 5),
-        11 => compare_family(rng),
+        11 => if rng.chance(1, 2) { compare_family(rng) } else { truncate_family(rng) },
         12 => bilinear_family(rng),
         13 | 14 => conversion_family(rng),
         15 => if rng.chance(1, 2) { call_iterate_family(rng) } else { assoc_iterate_family(rng) },
